@@ -243,6 +243,10 @@ Judge(i) ==
      \cup (IF ev.a = "CheckTx" /\ ~ev.res.ok /\ AdmitIdeal(pre, ev.args) /\ HasRegistryOps(ev.args.msgs)
            THEN {<<i, "L2", "note", <<"checktx-refused-exact-fee", FALSE>> >>} ELSE {})
      \cup (IF UnentitledAccepted(pre, evm, ev.res.ok) THEN {<<i, "L1", "C13", "UnentitledMessageAccepted">>} ELSE {})
+     \* an accept recorded although the rules, applied to the observed state, refuse the decision (a repeated decision, a removed or
+     \* never authorised signer, a closed order): approval is what minting rests on (C02), one decision per authorised signer (C03)
+     \cup (IF ev.a = "DeliverTx" /\ ev.res.ok /\ ~exp.ok /\ Len(Flatten(ev.args.msgs)) = 1 /\ Flatten(ev.args.msgs)[1].t = "Decide" /\ Flatten(ev.args.msgs)[1].d = "accept"
+           THEN {<<i, "L1", "C02", "ApprovalRecordedAgainstTheRules">>, <<i, "L1", "C03", "ApprovalRecordedAgainstTheRules">>} ELSE {})
      \cup (IF UnentitledGroupExec(pre, evm, ev.res) THEN {<<i, "L1", "C13", "UnentitledGroupProposalExecuted">>} ELSE {})
      \cup (IF HasStreamMsg(evm) /\ exp.ok /\ ~ev.res.ok THEN {<<i, "L1", "C12", "StreamOperationRefused">>} ELSE {})
      \cup (IF HasStreamMsg(evm) /\ ev.res.panic THEN {<<i, "L1", "C12", "StreamOperationPanicked">>} ELSE {})
